@@ -59,8 +59,8 @@ pub struct Plan {
 /// (search jobs, sweep base files, jumbo jobs)
 fn sizes(tier: &str, profile: &str) -> (u64, u64, u64) {
     match (tier, profile) {
-        ("quick", "checked") => (200_000, 10, 24),
-        ("quick", _) => (60_000, 4, 8),
+        ("quick", "checked") => (200_000, 10, 48),
+        ("quick", _) => (60_000, 4, 16),
         ("thorough", "checked") => (20_000_000, 1000, 1000),
         ("thorough", _) => (7_000_000, 350, 350),
         _ => (2_000, 1, 1),
